@@ -11,7 +11,18 @@ _IMPL_AT = re.compile(r"<impl at ([^:>]+):(\d+):(\d+): (\d+):(\d+)>")
 _SPAN = re.compile(r"@([^ }]+:\d+:\d+: \d+:\d+)")
 
 
+_SG_CACHE = {}
+
+
 def strip_generics(p):
+    r = _SG_CACHE.get(p)
+    if r is None:
+        r = _strip_generics(p)
+        _SG_CACHE[p] = r
+    return r
+
+
+def _strip_generics(p):
     """Remove every <...> group that is a generic-argument list (`::<..>` or `Type<..>`),
     but keep a leading `<T as Trait>` qualified-self group (with inner generics stripped)."""
     out = []
@@ -378,7 +389,7 @@ class Program:
                 return None
             if targs is not None and len(cands) == 1 and getattr(cands[0], "targs", None) not in (None, short_type(targs)):
                 # a single impl with different trait arguments: accept only generic parameters
-                if not re.fullmatch(r"[A-Z]\w{0,3}", cands[0].targs or ""):
+                if not re.fullmatch(r"[A-Z][A-Z0-9_]{0,7}", cands[0].targs or ""):
                     return None
             return self._pick(cands, self_ty)
         # generic impl: `impl<T> DbCollection for Collect<T>`: try with args replaced by T
@@ -387,7 +398,7 @@ class Program:
             if k_m == method and k_tr == trait and k_ty.split("<")[0] == head and ("<" in k_ty) and k_ty != st:
                 # accept if its args are all single upper-case generic names
                 inner = k_ty[k_ty.index("<") + 1 : -1]
-                if all(re.fullmatch(r"[A-Z]\w{0,6}", a.strip()) for a in inner.split(",")):
+                if all(re.fullmatch(r"[A-Z][A-Z0-9_]{0,7}", a.strip()) for a in inner.split(",")):
                     return self._pick(its, self_ty)
         return None
 
